@@ -1486,6 +1486,63 @@ def r74(ctx, repo):
                        f"{head}")
 
 
+def r74_complete(ctx, repo):
+    """basin_definition_copy decides "all features of the definition are
+    copied" independently of the order in which the features are listed"""
+    f = dewalrus(repo.func(COPIER, "basin_definition_copy"))
+
+    def is_def_features(e):
+        return isinstance(e, ast.Subscript) and const_str(
+            e.slice) == "features" and isinstance(e.value, ast.Name)
+
+    def unwrap(e):
+        n = 0
+        while isinstance(e, ast.Call) and call_name(e) in (
+                "set", "sorted", "frozenset") and len(e.args) == 1:
+            e = e.args[0]
+            n += 1
+        return e, n
+    found = []
+    for c in [n for n in walk(f) if isinstance(n, ast.Compare)]:
+        if len(c.ops) != 1 or not isinstance(c.ops[0], (ast.Eq, ast.NotEq)):
+            continue
+        a, na = unwrap(c.left)
+        b, nb = unwrap(c.comparators[0])
+        if is_def_features(b) and not is_def_features(a):
+            a, na, b, nb = b, nb, a, na
+        if not is_def_features(a) or is_def_features(b):
+            continue
+        found.append((c, a, na, b, nb))
+    if not found:
+        raise AnalysisError("basin_definition_copy: comparison of the used "
+                            "features with the definition not found")
+    for c, a, na, b, nb in found:
+        if na and nb:
+            ok, why = True, "order-independent comparison"
+        else:
+            v = b
+            if isinstance(v, ast.Name):
+                v = single_assign(f, v.id)
+            ok = isinstance(v, (ast.ListComp, ast.GeneratorExp)) and len(
+                v.generators) == 1 and isinstance(
+                v.generators[0].target, ast.Name) and is_name(
+                v.elt, v.generators[0].target.id) and txt(
+                v.generators[0].iter) == txt(a)
+            why = "the used features keep the order of the definition"
+            if v is None or not isinstance(v, (ast.ListComp, ast.GeneratorExp,
+                                               ast.Name, ast.Call)):
+                raise AnalysisError("basin_definition_copy: cannot tell how "
+                                    f"`{txt(b)}` is built")
+        ctx.ob("R7.4", ok,
+               f"'all features of the definition are copied' is decided "
+               f"correctly ({why})" if ok else
+               f"`{short(c, 50)}` compares ordered lists, but `{txt(b)}` "
+               f"does not follow the order of the definition: a definition "
+               f"whose features are not in that order is rewritten under a "
+               f"new key although all of its features are copied",
+               node=c, label="definition completeness order-independent")
+
+
 # ----------------------------------------------------------------------
 def r75(ctx, repo):
     br = retrieve_func(repo)
@@ -1938,7 +1995,8 @@ def run(ctx):
     ctx.rule("R7.3", "map composition on export (filter, hierarchy child, "
              "upstream basins), mapping name = stored feature", minimum=23)
     ctx.rule("R7.4", "named objects are created once (name varies with "
-             "every enclosing loop or creation is guarded)", minimum=7)
+             "every enclosing loop or creation is guarded); rewrite decision of "
+             "basin definitions order-independent", minimum=8)
     ctx.rule("R7.5", "relocation: relative lookup, bare file name stored, "
              "unverified locations unchanged, internal basins mapped",
              minimum=5)
@@ -1951,6 +2009,7 @@ def run(ctx):
     r72(ctx, repo)
     r73(ctx, repo)
     r74(ctx, repo)
+    r74_complete(ctx, repo)
     r75(ctx, repo)
     r76(ctx, repo)
     r77(ctx, repo)
@@ -2106,6 +2165,11 @@ MUTANTS = [
      ('            "basin_map": self.basinmap,\n',
       '            "basin_map": None,\n'), "R7.3"),
     # ---- R7.4
+    ("used features in the order of the copied features "
+     "(seeded C08_18)", COPIER,
+     ('feat_used = [f for f in bn["features"] if f in features_iter]',
+      'feat_used = [f for f in features_iter if f in bn["features"]]'),
+     "R7.4"),
     ("all logs copied to one name", COPIER,
      ("                      dst_name=meta_prefix + l_key,\n",
       "                      dst_name=meta_prefix,\n"), "R7.4"),
@@ -2648,6 +2712,14 @@ TWINS = [
        "        if data is not None:\n",
        "        if (data := self._get_ancillary_feature_data(feat)) "
        "is not None:\n")]),
+    ("definition completeness compared as sets", COPIER,
+     [('feat_used = [f for f in bn["features"] if f in features_iter]',
+       'feat_used = [f for f in features_iter if f in bn["features"]]'),
+      ('            elif feat_used != bn["features"]:\n'
+       '                bn["features"] = feat_used\n',
+       '            elif set(feat_used) != set(bn["features"]):\n'
+       '                bn["features"] = [f for f in bn["features"]\n'
+       '                                  if f in feat_used]\n')]),
     ("rewritten definition keyed through an assignment expression", COPIER,
      [("            if len(feat_used) == 0:\n",
        "            if not feat_used:\n"),
